@@ -61,7 +61,7 @@ M = [
     ("c04_f8_reverted", PL, "use_alarm = HostContext in broker and isinstance(threading.current_thread(), threading._MainThread)", "use_alarm = HostContext in broker"),
     ("c04_subgraph_keys_lost", DR, "        yield dict((s, get_dependencies(s)) for s in seen)", "        yield dict((s, get_dependencies(s)) for s in seen if get_dependencies(s) or get_dependents(s))"),
     # ---- C05 -----------------------------------------------------------------
-    ("c05_reversed_dropped", SF, "for c in reversed(dr.get_delegate(self).deps):", "for c in dr.get_delegate(self).deps:"),
+    ("c02_point_prefers_first_implementation", SF, "for c in reversed(dr.get_delegate(self).deps):", "for c in dr.get_delegate(self).deps:"),
     ("c05_ignore_applied_to_new_handler", SF, "            dr.add_ignore(old, c)", "            dr.add_ignore(component, c)"),
     ("c05_handlers_not_remembered", SF, "        ctx_handlers[name][c].append(component)", "        pass"),
     ("c05_flags_not_copied", SF, "                v.filterable = delegate.filterable = point.filterable\n", ""),
